@@ -42,6 +42,7 @@ InputsAfter(prev) ==
     \cup (IF "phy" \in Toggles THEN {[Quieten(prev) EXCEPT !.rst = r, !.phy = ~prev.phy] : r \in BOOLEAN} ELSE {})
     \cup (IF "dscr" \in Toggles THEN {[Quieten(prev) EXCEPT !.rst = r, !.dscr = ~prev.dscr] : r \in BOOLEAN} ELSE {})
     \cup {[Quieten(prev) EXCEPT !.rst = r, !.sent = c] : r \in BOOLEAN, c \in SentVals \ {prev.sent}}
+    \cup {[Quieten(prev) EXCEPT !.drst = TRUE]}
 
 -----------------------------------------------------------------------------
 (* named Env predicates of the open findings (see known_findings.d/ss_ltssm.json) *)
@@ -104,6 +105,7 @@ HelpBase == [Quieten(in) EXCEPT !.phy = TRUE,
 SimEvent        == \E i \in InputsAfter(in) : ~i.rst /\ Do(i, 1)
 SimReset(clean) == \E i \in InputsAfter(in) : i.rst /\ (clean => Clean(ref, i)) /\ Do(i, 1)
 SimResetHold    == in.rst /\ Do([Quieten(in) EXCEPT !.rst = TRUE], 1)
+SimDomainReset  == Do([Quieten(in) EXCEPT !.drst = TRUE], 1)
 SimLeap         == \E k \in Leaps : Do(Quieten(in), k)
 SimHelp         == \E S \in HelpSets : Do(WithStrobes(HelpBase, S, FALSE), 1)
 SimHelp2        == SimHelp          \* (weights: TLC's simulator first picks an action, then a successor)
@@ -111,8 +113,8 @@ SimHelp3        == SimHelp
 SimHelp4        == SimHelp
 SimEvent2       == SimEvent
 
-SimNextClean == SimEvent \/ SimEvent2 \/ SimReset(TRUE) \/ SimResetHold \/ SimLeap \/ SimHelp \/ SimHelp2 \/ SimHelp3 \/ SimHelp4
-SimNextAny   == SimEvent \/ SimEvent2 \/ SimReset(FALSE) \/ SimResetHold \/ SimLeap \/ SimHelp \/ SimHelp2 \/ SimHelp3 \/ SimHelp4
+SimNextClean == SimEvent \/ SimEvent2 \/ SimReset(TRUE) \/ SimResetHold \/ SimDomainReset \/ SimLeap \/ SimHelp \/ SimHelp2 \/ SimHelp3 \/ SimHelp4
+SimNextAny   == SimEvent \/ SimEvent2 \/ SimReset(FALSE) \/ SimResetHold \/ SimDomainReset \/ SimLeap \/ SimHelp \/ SimHelp2 \/ SimHelp3 \/ SimHelp4
 SimClean == Init /\ [][SimNextClean]_vars
 SimAny   == Init /\ [][SimNextAny]_vars
 
@@ -151,8 +153,9 @@ FsmEdges == WarmResetEdges \cup
 ASSUME Cardinality(FsmEdges) = NEdges
 
 EdgeLegal == [][ref'.st # ref.st => <<ref.st, ref'.st>> \in FsmEdges]_vars
-U0OnlyFromIdle == [][(ref'.st = U0 /\ ref.st # U0) => (ref.st \in {PID, RID, HRX} /\ in'.idle /\ ~in'.rst)]_vars
-ResetWins == [][(in'.rst /\ ref.st # RDR) => ref'.st = RDR]_vars
+U0OnlyFromIdle == [][(ref'.st = U0 /\ ref.st # U0) => (ref.st \in {PID, RID, HRX} /\ in'.idle /\ ~in'.rst /\ ~in'.drst)]_vars
+ResetWins == [][((in'.rst \/ in'.drst) /\ ref.st # RDR) => ref'.st = RDR]_vars
+DomainResetRestarts == [][in'.drst => ref' = RefInit(ref.lo)]_vars
 CounterRestarts == [][ref'.st # ref.st => ref'.cyc = 0]_vars
 
 =============================================================================
